@@ -43,7 +43,7 @@ func Run(seed int64, n int, outDir string) error {
 			defer wg.Done()
 			sem <- struct{}{}
 			defer func() { <-sem }()
-			outs[i] = runWatched(specs[i], watchdog+5*time.Second)
+			outs[i] = runWatched(specs[i], watchdog)
 		}(i)
 	}
 
